@@ -49,6 +49,14 @@ func checkAllocFields(c *Ctx, rule, label string, p *Program, al *ssa.Alloc, at 
 	c.Check(len(why) == 0, rule, label, pos, fmt.Sprintf("%d fields bound to their sources", len(specs)), strings.Join(why, "; "))
 }
 
+// liftSite: set while a rule walks a Region, so that checkCallArgs lifts arguments through the helper chain.
+type liftCtx struct {
+	rg   *Region
+	site regionSite
+}
+
+var liftSite *liftCtx
+
 func checkCallArgs(c *Ctx, rule, label string, p *Program, call ssa.Instruction, specs []fieldSrc) {
 	cc := callCommon(call)
 	var why []string
@@ -58,6 +66,10 @@ func checkCallArgs(c *Ctx, rule, label string, p *Program, call ssa.Instruction,
 			continue
 		}
 		t := p.XLocal(p.TermOf(cc.Args[i]), call.Parent())
+		if liftSite != nil {
+			// the call sits in a helper of the subject: describe the argument in the subject's vocabulary
+			t = p.XLocal(liftSite.rg.Term(liftSite.site, cc.Args[i]), liftSite.rg.root)
+		}
 		if s.ok != nil && !s.ok(t) {
 			why = append(why, fmt.Sprintf("argument %s ← %s (expected %s)", s.field, t, s.want))
 		}
@@ -150,11 +162,14 @@ func runC13(c *Ctx) {
 		return func(t *Term) bool { return t.Op == "call" && t.Fn != nil && t.Fn.Name() == name }
 	}
 	nb := 0
-	eachInstr(tbp, func(in ssa.Instruction) {
+	rgT := p.RegionOf(tbp, 2) // a part may be rebuilt by a helper of the package (`toHyperProof(result, hasher)`)
+	rgT.Instrs(func(site regionSite, in ssa.Instruction) {
 		cc := callCommon(in)
 		if cc == nil || cc.StaticCallee() == nil {
 			return
 		}
+		liftSite = &liftCtx{rgT, site}
+		defer func() { liftSite = nil }()
 		f := cc.StaticCallee()
 		switch {
 		case f == p.Func(pkgBalloon, "NewMembershipProof"):
